@@ -207,7 +207,7 @@ class Engine:
         if isinstance(v, SInt):
             return v.t != 0
         if isinstance(v, SStr):
-            return z3.Length(v.t) > 0
+            return v.t != z3.StringVal("")  # (not Length > 0: keeps the sequence theory out of paths that only test emptiness)
         if isinstance(v, SNone):
             return z3.BoolVal(False)
         if isinstance(v, (SRec, SClass, SFunc, SBuiltin, SEnum)):
@@ -234,7 +234,7 @@ class Engine:
             return z3.If(Val.is_none(t), False,
                    z3.If(Val.is_bool(t), Val.bval(t),
                    z3.If(Val.is_int(t), Val.ival(t) != 0,
-                   z3.If(Val.is_str(t), z3.Length(Val.sval(t)) > 0,
+                   z3.If(Val.is_str(t), Val.sval(t) != z3.StringVal(""),
                    z3.If(Val.is_tup(t), VL.is_cons(Val.targs(t)),
                    z3.If(Val.is_ref(t), self._ref_truth(st, v), True))))))
         if isinstance(v, SOpaque):
@@ -830,6 +830,9 @@ class Engine:
                 return self.ev_class_attr(v.ci, attr, st)
             if attr == "__class__":
                 return [(st, SClass(v.ci))]
+            m = self.models.value_method(self, st, v, attr)
+            if m is not None:
+                return [(st, m)]
             if self.pure:
                 raise Unsupported(f"{v.ci.name}.{attr}")
             return [(self.raise_(st, "AttributeError", attr), None)]
@@ -1188,8 +1191,12 @@ class Engine:
                 s.depth -= 1
                 out.append((s, v))
             return out
-        if any(isinstance(n, (ast.Yield, ast.YieldFrom)) for n in _walk_own(fv.node)):
-            return self.models.call_generator(self, st, fv, fr, node)
+        is_gen = any(isinstance(n, (ast.Yield, ast.YieldFrom)) for n in _walk_own(fv.node))
+        if is_gen:
+            # generators are run eagerly into a list of the yielded values (encoding assumption: the body has no effect that the
+            # consumer could observe between two yields - true of the generators under contract, which only read)
+            frame_vars["__yield__"] = self.models.new_list(self, st, [], TList(ANY))
+            fr = Frame(frame_vars, fv.module, fv.qual or fv.name)
         fr.unbound = _assigned_names(fv.node) - set(frame_vars)
         st.frames.append(fr)
         st.depth += 1
@@ -1202,6 +1209,8 @@ class Engine:
             s.depth -= 1
             if o.kind == "raise":
                 res.append((s, None))
+            elif is_gen and o.kind in ("return", "next"):
+                res.append((s, self.models.SGen(frame_vars["__yield__"])))
             elif o.kind == "return":
                 res.append((s, o.value if o.value is not None else NONEV))
             elif o.kind == "next":
@@ -1222,6 +1231,20 @@ class Engine:
 
     def ev_GeneratorExp(self, node, st, fi):
         return self.models.comprehension(self, node, st, fi, "gen")
+
+    def ev_Yield(self, node, st, fi):
+        lst = st.frames[fi].vars.get("__yield__")
+        if lst is None:
+            raise Unsupported("yield outside a generator frame")
+        if node.value is None:
+            self.models.list_append(self, st, lst, NONEV)
+            return [(st, NONEV)]
+        out = []
+        for s, v in self.ev(node.value, st, fi):
+            if s.exc is None:
+                self.models.list_append(self, s, lst, v)
+            out.append((s, NONEV))
+        return out
 
     def ev_Starred(self, node, st, fi):
         raise Unsupported("starred expression")
